@@ -25,8 +25,8 @@ Inductive event :=
 | WDefault                   (* first select (759-764) finds neither done nor an ack: falls into the second select *)
 | WAccept (c : N)            (* second select receives c's request from sendQueue: 770-810 *)
 | WTakeAck                   (* either select receives from ackQueue: 762 / 768 *)
-| WWriteHdr                  (* version stamp 813-818, writeHeader 827; CloseConnection parks 831-836 *)
-| WWritePay                  (* io.Copy of the payload 847 *)
+| WWriteHdr                  (* version stamp 813-818, writeHeader 827; a header-only CloseConnection parks *)
+| WWritePay                  (* io.Copy of the payload 847; then a CloseConnection parks *)
 | WriteFail (k : N)          (* the pending Write fails after k bytes: 828 / 848 *)
 | WSeeDone                   (* a select of the write loop (or the parked loop) takes <-c.done: 760, 766, 834 *)
 (* --- read loop, handleIncoming 700-739 + passToHandler 888-938 --- *)
@@ -223,20 +223,26 @@ Definition step_wtakeack (s : state) : state :=
   | _, _ => s
   end.
 
+(* The write loop parks after a CloseConnection message has been written completely (header and,
+   if there is one, payload): reader.go after commit 1713ba3. (Before it, the loop parked right
+   after the header and a CloseConnection with a payload left a truncated frame on the wire —
+   found by C05, see notes/C05.md.) *)
+Definition after_frame (o : oframe) : wstate :=
+  if f_typ (o_frame o) =? T_CloseConnection then WParked else WTop.
+
 Definition step_wwritehdr (cfg : config) (s : state) : state :=
   match writer s with
   | WHolding o =>
       let o' := stamp_o cfg (version s) o in
       let s1 := set_wire (wire s ++ [CHdr o']) s in
-      if f_typ (o_frame o') =? T_CloseConnection then set_writer WParked (set_out (out s1 ++ [o']) s1)
-      else if f_len (o_frame o') =? 0 then set_writer WTop (set_out (out s1 ++ [o']) s1)
+      if f_len (o_frame o') =? 0 then set_writer (after_frame o') (set_out (out s1 ++ [o']) s1)
       else set_writer (WPayload o') s1
   | _ => s
   end.
 
 Definition step_wwritepay (s : state) : state :=
   match writer s with
-  | WPayload o => set_writer WTop (set_out (out s ++ [o]) (set_wire (wire s ++ [CPay o]) s))
+  | WPayload o => set_writer (after_frame o) (set_out (out s ++ [o]) (set_wire (wire s ++ [CPay o]) s))
   | _ => s
   end.
 
@@ -472,4 +478,4 @@ Definition hdr_bytes (f : frame) : list N :=
   be16 (u16 (N.lor (N.shiftl (f_ver f) 10) (f_typ f))) ++ be32 (wire_len_field f) ++ be32 (u32 (f_id f)).
 (* the Write calls a completely written frame consists of *)
 Definition chunks_of (o : oframe) : list chunk :=
-  if (f_typ (o_frame o) =? T_CloseConnection) || (f_len (o_frame o) =? 0) then [CHdr o] else [CHdr o; CPay o].
+  if f_len (o_frame o) =? 0 then [CHdr o] else [CHdr o; CPay o].
